@@ -90,7 +90,10 @@ func (m *Mutex) Unlock() {
 	}
 	m.locked = false
 	m.owner = nil
-	Yield(site)
+	// a critical section has just ended: what it guarded may have escaped with the caller (a slice
+	// header, a snapshot that is used after the lock). Treated like the inside of a
+	// read-modify-write window: policies with RMWP preempt here with that probability.
+	Access(site, 'u')
 }
 
 // Held reports whether the mutex is locked and by whom (for oracles).
